@@ -4,7 +4,7 @@
 //	driver CNN quick|thorough      exit 0 held / 1 VIOLATION / 2 broken-or-inconclusive
 //	driver CNN --replay <file>     re-execute one replay file without rapid
 //
-// Environment: VERIF_SEED (0 is remapped to 1), VERIF_REPO (default /repo; a
+// Environment: VERIF_SEED (0 is remapped to 1), VERIF_TIMEOUT (per-process time budget, e.g. 20m), VERIF_REPO (default /repo; a
 // different tree is used through a generated -modfile).
 package main
 
@@ -440,6 +440,9 @@ func check(p *prop, repo, tier string, seed int64) int {
 		if checks == 0 {
 			shards = 1
 		}
+		if d, err := time.ParseDuration(os.Getenv("VERIF_TIMEOUT")); err == nil && d > 0 {
+			timeout = d // per-process time budget override (a run that exhausts it reports what it explored)
+		}
 		for i := 0; i < shards; i++ {
 			s := seed
 			if tier == "thorough" {
@@ -508,6 +511,11 @@ func check(p *prop, repo, tier string, seed int64) int {
 			}
 		}
 		if r.exit == 0 {
+			continue
+		}
+		if r.exit == 4 && strings.Contains(r.out, "VERIF-CUTSHORT") && !failRE.MatchString(r.out) {
+			// the time budget ended before the requested number of cases: what was explored held (counted in the evidence)
+			fmt.Printf("NOTE property=%s %s: time budget ended before the requested number of cases\n", p.ID, r.name)
 			continue
 		}
 		ms := failRE.FindAllStringSubmatch(r.out, -1)
